@@ -311,6 +311,11 @@ async fn write_frame<W: tokio::io::AsyncWrite + Unpin>(w: &mut W, body: &[u8]) -
     w.write_all(&f).await.is_ok() && w.flush().await.is_ok()
 }
 
+thread_local! {
+    /// Gap between two transfer messages on their way to the client (ms).
+    static PACE_MS: std::cell::Cell<u64> = const { std::cell::Cell::new(0) };
+}
+
 /// One direction of a proxied stream connection.
 #[allow(clippy::too_many_arguments)]
 async fn pump(led: Led, mut rd: tokio::io::ReadHalf<SimStream>, mut wr: tokio::io::WriteHalf<SimStream>, ids: Rc<RefCell<BTreeMap<u16, String>>>, cut: Rc<RefCell<bool>>, to_client: bool, mode: Mode, conn: usize) {
@@ -380,6 +385,12 @@ async fn pump(led: Led, mut rd: tokio::io::ReadHalf<SimStream>, mut wr: tokio::i
                 }
             }
         };
+        // A slow link: the messages of a transfer trickle in one by one, a
+        // few milliseconds apart (in order, nothing lost - not a fault).
+        let pace = PACE_MS.with(|c| c.get());
+        if to_client && pace > 0 && key == "xfr" {
+            sim::sleep_ms(pace).await;
+        }
         let mut out: Vec<Vec<u8>> = Vec::new();
         match fate {
             Fate::Pass => {
@@ -783,27 +794,36 @@ async fn run(prop: &'static str, _tier: Tier) {
         Ok(s) => s,
         Err(_) => return,
     };
+    // Now and then the caller first starts the same transfer, takes a
+    // message or two, loses interest (drops the request) and a little later
+    // asks again over the same connection, while the server is still sending
+    // the rest of the first one: the second transfer is one of its own.
+    PACE_MS.with(|c| c.set(*sim::pick("xfr.pace_ms", &[0u64, 0, 2, 10])));
+    // (Not with an IXFR in the server's one-record-per-message packaging: the
+    // stream client takes its first message for the whole response - the
+    // known finding - and lets go of the id while the rest is still coming.)
+    let abandon_after = if sim::chance("xfr.abandon_first", 1, 4) && !(compat_mode && ixfr) { 1 + sim::draw("xfr.abandon_after", 2) } else { 0 };
+    let abandon_pause_ms = *sim::pick("xfr.abandon_pause_ms", &[0u64, 1, 20, 150]);
     let mut xst_cfg = stream::Config::new();
     xst_cfg.set_response_timeout(Duration::from_millis(2000));
     xst_cfg.set_streaming_response_timeout(Duration::from_millis(3000));
     // A connection with a transfer in progress is not idle, however short
     // the idle timeout (0: close as soon as nothing is outstanding).
-    xst_cfg.set_idle_timeout(Duration::from_millis(*sim::pick("xfr.idle_timeout_ms", &[10_000u64, 0, 1, 100])));
-    // (The connection object has to outlive the request.)
-    let _keep_alive: Box<dyn std::any::Any>;
-    let mut getter: Box<dyn GetResponseMulti + Send + Sync> = if signed {
+    // (Between an abandoned request and the next one the connection may be
+    // idle for a moment: then the timeout is a long one.)
+    let idle_ms = *sim::pick("xfr.idle_timeout_ms", &[10_000u64, 0, 1, 100]);
+    xst_cfg.set_idle_timeout(Duration::from_millis(if abandon_after > 0 { 10_000 } else { idle_ms }));
+    // (The connection object lives in the closure: it outlives the requests.)
+    type Getter = Box<dyn GetResponseMulti + Send + Sync>;
+    let send: Box<dyn Fn(PlainMulti) -> Getter> = if signed {
         let (c, t) = stream::Connection::<Signed, SignedMulti>::with_config(s, xst_cfg);
         tokio::spawn(t.run());
         let tc = ctsig::Connection::new(key.clone(), c);
-        let g = SendRequestMulti::send_request(&tc, req);
-        _keep_alive = Box::new(tc);
-        g
+        Box::new(move |r| SendRequestMulti::send_request(&tc, r))
     } else {
         let (c, t) = stream::Connection::<Plain, PlainMulti>::with_config(s, xst_cfg);
         tokio::spawn(t.run());
-        let g = SendRequestMulti::send_request(&c, req);
-        _keep_alive = Box::new(c);
-        g
+        Box::new(move |r| SendRequestMulti::send_request(&c, r))
     };
     ev!("transfer {} {} -> {} (journal {})", if ixfr { "IXFR" } else { "AXFR" }, i, j, have_journal);
     sim::stat(if ixfr { "probe.ixfr_over_transport" } else { "probe.axfr_over_transport" });
@@ -831,6 +851,31 @@ async fn run(prop: &'static str, _tier: Tier) {
     let careful = signed;
     let mut buffered = Vec::new();
     let transfer = async {
+        if abandon_after > 0 {
+            sim::stat("probe.transfer_abandoned_then_asked_again");
+            let mut first = send(req.clone());
+            let mut midway = true;
+            for _ in 0..abandon_after {
+                match first.get_response().await {
+                    Ok(Some(_)) => {}
+                    _ => {
+                        midway = false;
+                        break;
+                    }
+                }
+            }
+            if midway {
+                sim::stat("probe.transfer_abandoned_midway");
+            }
+            ev!("first transfer request abandoned");
+            drop(first);
+            if abandon_pause_ms > 0 {
+                sim::sleep_ms(abandon_pause_ms).await;
+            } else {
+                step().await;
+            }
+        }
+        let mut getter = send(req);
         // (clean end?, error text, updater/interpreter complaint)
         let mut apply_err: Option<String> = None;
         let end: Result<(), String> = loop {
